@@ -283,8 +283,8 @@ def paramsAreNames (atoms : List LarkTree) : TExpr → Bool
   | .lam ps body => ps.all (fun p => ((atoms[p]?).bind paramOfAtom).isSome) && paramsAreNames atoms body
 
 /-- the reference parser for `expression` over the ladder fragment's tokens -/
-def rdParseT (ladder : List Rule) (compOps : List CompOp) (toks : List LTok) : Option LarkTree :=
-  match encode toks 0 with
+def rdParseT (ladder : List Rule) (compOps : List CompOp) (soft : List (Str × Str)) (toks : List LTok) : Option LarkTree :=
+  match encode soft toks 0 with
   | some (ts, atoms) =>
     let I : InfoT := ⟨ladder, compOps, fun i => (atoms[i]?).getD .empty, fun i => ((atoms[i]?).bind paramOfAtom).getD .empty⟩
     match parseT (ladderTable ladder).ops ts with
